@@ -13,10 +13,12 @@
 //!          (3 idsrc idsrc text) register_error | (4 idsrc) seal_errors
 //!          (5 idsrc) set_incomplete_chunk | (6) pending_data | (7 k) complete future k
 //!          (8) poll the stream once | (9 idsrc) errors(boundary) | (10 idsrc) get_incomplete_chunk
+//!          (14 order) consume_buffers(), completing futures in `order` while it is pending
 //!          (12 kind codec text) Resource(0) / OnceResource(1) / SharedValue(2) with
 //!                               JsonSerdeCodec(0) / FromToStringCodec(1) / FromToBytesCodec(2: base64);
-//!                               logs (13 b): does the real client-side decoding of the real
-//!                               server-side encoding return the value
+//!                               logs (13 b wire): the string handed over, and whether the real
+//!                               browser-side construction of the resource under a hydrating
+//!                               context holding that string yields the value
 //! idsrc  : (0 n) the number n | (1 k) the k-th id handed out by next_id so far
 use futures::{Stream, StreamExt};
 use hydration_context::{
@@ -181,6 +183,102 @@ fn noop_waker() -> Waker {
     unsafe { Waker::from_raw(RawWaker::new(std::ptr::null(), &VT)) }
 }
 
+// ------------------------------------------------------------------ a browser-side context without a browser
+/// What `HydrateSharedContext` is in the browser, with `window.__RESOLVED_RESOURCES` replaced
+/// by a map: hydrating, ids counted up from `first_id`, `read_data` answers from the map.
+#[derive(Debug)]
+struct BrowserContext {
+    id: std::sync::atomic::AtomicUsize,
+    resolved: std::collections::BTreeMap<usize, String>,
+}
+impl SharedContext for BrowserContext {
+    fn is_browser(&self) -> bool {
+        true
+    }
+    fn next_id(&self) -> SerializedDataId {
+        SerializedDataId::new(self.id.fetch_add(1, std::sync::atomic::Ordering::Relaxed))
+    }
+    fn write_async(&self, _id: SerializedDataId, _fut: PinnedFuture<String>) {}
+    fn read_data(&self, id: &SerializedDataId) -> Option<String> {
+        self.resolved.get(&id.clone().into_inner()).cloned()
+    }
+    fn await_data(&self, _id: &SerializedDataId) -> Option<String> {
+        None
+    }
+    fn pending_data(&self) -> Option<PinnedStream<String>> {
+        None
+    }
+    fn during_hydration(&self) -> bool {
+        true
+    }
+    fn hydration_complete(&self) {}
+    fn get_is_hydrating(&self) -> bool {
+        true
+    }
+    fn set_is_hydrating(&self, _is_hydrating: bool) {}
+    fn take_errors(&self) -> Vec<(SerializedDataId, ErrorId, Error)> {
+        vec![]
+    }
+    fn errors(&self, _boundary_id: &SerializedDataId) -> Vec<(ErrorId, Error)> {
+        vec![]
+    }
+    fn seal_errors(&self, _boundary_id: &SerializedDataId) {}
+    fn register_error(&self, _b: SerializedDataId, _e: ErrorId, _error: Error) {}
+    fn defer_stream(&self, _wait_for: PinnedFuture<()>) {}
+    fn await_deferred(&self) -> Option<PinnedFuture<()>> {
+        None
+    }
+    fn set_incomplete_chunk(&self, _id: SerializedDataId) {}
+    fn get_incomplete_chunk(&self, _id: &SerializedDataId) -> bool {
+        false
+    }
+}
+
+/// The real browser-side construction of a Resource / OnceResource / SharedValue with codec
+/// `Ser`, under an Owner whose shared context hands out `id` next and holds `wire` under it:
+/// the value it hydrates with (`None`: it found nothing it could decode).
+fn hydrate_in_browser<Ser>(kind: i64, id: usize, wire: &str) -> Option<String>
+where
+    Ser: Encoder<String> + Decoder<String> + 'static,
+    <Ser as Encoder<String>>::Error: std::fmt::Debug,
+    <Ser as Decoder<String>>::Error: std::fmt::Debug,
+    <<Ser as Decoder<String>>::Encoded as FromEncodedStr>::DecodingError: std::fmt::Debug,
+    <Ser as Encoder<String>>::Encoded: IntoEncodedString,
+    <Ser as Decoder<String>>::Encoded: FromEncodedStr,
+{
+    use reactive_graph::traits::GetUntracked;
+    let cx = BrowserContext {
+        id: std::sync::atomic::AtomicUsize::new(id),
+        resolved: [(id, wire.to_string())].into_iter().collect(),
+    };
+    let owner = Owner::new_root(Some(Arc::new(cx) as Arc<dyn SharedContext + Send + Sync>));
+    let out = owner.with(|| match kind {
+        2 => {
+            const MARK: &str = "\u{1}computed again in the browser\u{1}";
+            let v = SharedValue::<String, Ser>::new_with_encoding(|| MARK.to_string()).into_inner();
+            (v != MARK).then_some(v)
+        }
+        0 => {
+            // read through the inner async value: ArcResource's own read warns on stderr
+            // about reads outside <Suspense/>
+            let res = leptos_server::ArcResource::<String, Ser>::new_with_options(
+                || (),
+                |_| GateFuture(Gate::default()),
+                false,
+            );
+            std::ops::Deref::deref(&res).get_untracked()
+        }
+        _ => leptos_server::ArcOnceResource::<String, Ser>::new_with_options(
+            GateFuture(Gate::default()),
+            false,
+        )
+        .get_untracked(),
+    });
+    run_until_idle();
+    drop(owner);
+    out
+}
+
 // ------------------------------------------------------------------ helpers
 #[derive(Debug, Clone)]
 struct Msg(String);
@@ -226,6 +324,7 @@ fn debug_classes(s: &str) -> Sexp {
 
 struct Session {
     sc: Arc<dyn SharedContext + Send + Sync>,
+    ssr: Arc<SsrSharedContext>,
     client: HydrateSharedContext,
     islands: bool,
     owner: Owner,
@@ -295,13 +394,15 @@ impl Session {
         <Ser as Encoder<String>>::Encoded: IntoEncodedString,
         <Ser as Decoder<String>>::Encoded: FromEncodedStr,
     {
-        use std::borrow::Borrow;
+        // the string the server hands over, and what the real browser-side construction of the
+        // same resource makes of exactly that string (under an arbitrary id)
         let wire = Ser::encode(&payload).unwrap().into_encoded_string();
-        let back = <<Ser as Decoder<String>>::Encoded as FromEncodedStr>::from_encoded_str(&wire)
-            .ok()
-            .and_then(|enc| Ser::decode(enc.borrow()).ok());
-        self.log
-            .push(Lst(vec![Num(13), Sexp::bool(back.as_ref() == Some(&payload))]));
+        let back = hydrate_in_browser::<Ser>(kind, 3, &wire);
+        self.log.push(Lst(vec![
+            Num(13),
+            Sexp::bool(back.as_ref() == Some(&payload)),
+            cps(&wire),
+        ]));
 
         let hydrating = self.sc.get_is_hydrating();
         if !self.islands || hydrating {
@@ -326,6 +427,51 @@ impl Session {
             })
         };
         self.keep.push(kept);
+    }
+
+    /// cmd 14: `SsrSharedContext::consume_buffers()`, the other way data leaves the context.
+    /// The future is polled; whenever it is pending the next unfinished future of `order`
+    /// (then the lowest-numbered one) is completed.
+    fn consume(&mut self, order: &Sexp) {
+        let ssr = Arc::clone(&self.ssr);
+        let mut fut: Pin<Box<dyn Future<Output = Vec<(SerializedDataId, String)>>>> =
+            Box::pin(async move { ssr.consume_buffers().await });
+        let mut order: VecDeque<usize> = order.list().iter().map(|k| k.num() as usize).collect();
+        let waker = noop_waker();
+        let mut cx = Context::from_waker(&waker);
+        let mut guard = 0;
+        let data = loop {
+            guard += 1;
+            if guard > 10_000 {
+                panic!("consume_buffers did not finish");
+            }
+            if let Poll::Ready(data) = fut.as_mut().poll(&mut cx) {
+                break data;
+            }
+            let mut next = None;
+            while let Some(k) = order.pop_front() {
+                if k < self.gates.len() && !self.gates[k].is_done() {
+                    next = Some(k);
+                    break;
+                }
+            }
+            let next = next.or_else(|| (0..self.gates.len()).find(|k| !self.gates[*k].is_done()));
+            match next {
+                Some(k) => {
+                    self.log.push(Lst(vec![Num(7), Num(k as i64)]));
+                    self.complete(k);
+                    run_until_idle();
+                }
+                None => panic!("consume_buffers pending although every future completed"),
+            }
+        };
+        self.log.push(Lst(vec![
+            Num(14),
+            Lst(data
+                .into_iter()
+                .map(|(id, d)| Lst(vec![dec(id.into_inner()), cps(&d)]))
+                .collect()),
+        ]));
     }
 
     fn cmd(&mut self, c: &Sexp) {
@@ -388,6 +534,7 @@ impl Session {
                     _ => self.resource::<FromToBytesCodec>(kind, payload),
                 }
             }
+            14 => self.consume(c.at(1)),
             _ => {}
         }
         run_until_idle();
@@ -398,11 +545,12 @@ fn session(c: &Sexp) -> Sexp {
     init_executor();
     reset_executor();
     let islands = c.at(1).num() != 0;
-    let sc: Arc<dyn SharedContext + Send + Sync> = if islands {
+    let ssr: Arc<SsrSharedContext> = if islands {
         Arc::new(SsrSharedContext::new_islands())
     } else {
         Arc::new(SsrSharedContext::new())
     };
+    let sc: Arc<dyn SharedContext + Send + Sync> = ssr.clone();
     // what leptos::mount::{hydrate_body, hydrate_islands} construct in the browser
     let client = HydrateSharedContext::new();
     if islands {
@@ -411,6 +559,7 @@ fn session(c: &Sexp) -> Sexp {
     let owner = Owner::new_root(Some(Arc::clone(&sc)));
     let mut s = Session {
         sc,
+        ssr,
         client,
         islands,
         owner,
